@@ -1,6 +1,11 @@
 (* C17 -- Rejection, mask interpolation and sky masking act on exactly the intended pixels.
    Property theorems only; each is closed by `exact` and followed by Print Assumptions.
 
+   The pieces rej_..., sky_..., mi_... are GENERATED from /repo on every run (translate/c17.py ->
+   Generated/Reject.v, SkyMask.v, MaskInterp.v): limit comparisons and badness terms, inmask/sticky products,
+   grow loop bounds and clamps, qdone, skymask's flag tests / width / smooth arguments / test, const rules.
+   M is assembled from them, so every theorem about M below is re-checked against what the code says now.
+
    M = transliterated model (reject_model, maskinterp1_model, aesthetics_model, median_reflect_model,
        skymask_row_model), S = specification (reject_spec, maskinterp1_spec, ..., dil_at), both in C17/Model.v.
    The correspondence run evaluates M and S on the implementation's observed outputs.
@@ -17,7 +22,9 @@
      IsRight, NoLeft, NoRight accordingly;  xval_ok = x vector of the right length with distinct entries
      Flagged f1 f2 ms g i   exists k m, |i-k| <= g /\ ms[k] = m /\ (Z.land m f1 <> 0 \/ Z.land m f2 <> 0) *)
 From Coq Require Import ZArith QArith List Bool.
-Import ListNotations.
+From Coq Require String.
+Import ListNotations String.StringSyntax.
+From PV Require Import Generated.Reject Generated.SkyMask Generated.MaskInterp.
 From PV Require Import C17.Model C17.ProofsDilate C17.ProofsReject C17.ProofsInterp C17.ProofsAxis C17.ProofsMedian C17.ProofsSky.
 Open Scope Q_scope.
 
@@ -201,6 +208,39 @@ Theorem C17_none_good_identity : forall (ys : list Q) (mask : list bool), length
 Proof. exact none_good_identity. Qed.
 Print Assumptions C17_none_good_identity.
 
+(* the `const` rules of djs_maskinterp1 (GENERATED destination slice and source index): every value they
+   write is == the value already there, so `const` changes nothing (as the docstring says) and M omits it *)
+Theorem C17_const_left_noop : forall (ys : list Q) (mask : list bool), length mask = length ys ->
+  forall (igood : Z -> Z) (ngood ny : Z) (g0 : nat) (y0 : Q) (i : nat) (y : Q),
+  igood 0%Z = Z.of_nat g0 -> nth_error mask g0 = Some false -> nth_error ys g0 = Some y0 ->
+  (forall k, (k < g0)%nat -> nth_error mask k = Some true) ->
+  (mi_idx_left_lo igood ngood ny <= Z.of_nat i < mi_idx_left_hi igood ngood ny)%Z ->
+  nth_error ys i = Some y ->
+  exists v w, nth_error (maskinterp1_model ys mask None) i = Some v /\
+              nth_error (maskinterp1_model ys mask None) (Z.to_nat (mi_idx_left_src igood ngood ny)) = Some w /\ v == w.
+Proof. exact const_left_noop. Qed.
+Print Assumptions C17_const_left_noop.
+
+Theorem C17_const_right_noop : forall (ys : list Q) (mask : list bool), length mask = length ys ->
+  forall (igood : Z -> Z) (ngood ny : Z) (gl : nat) (yl : Q) (i : nat) (y : Q),
+  igood (ngood - 1)%Z = Z.of_nat gl -> nth_error mask gl = Some false -> nth_error ys gl = Some yl ->
+  (forall k, (gl < k)%nat -> nth_error mask k <> Some false) ->
+  (mi_idx_right_lo igood ngood ny <= Z.of_nat i < mi_idx_right_hi igood ngood ny)%Z ->
+  nth_error ys i = Some y ->
+  exists v w, nth_error (maskinterp1_model ys mask None) i = Some v /\
+              nth_error (maskinterp1_model ys mask None) (Z.to_nat (mi_idx_right_src igood ngood ny)) = Some w /\ v == w.
+Proof. exact const_right_noop. Qed.
+Print Assumptions C17_const_right_noop.
+
+(* with xval the same two rules are applied in x-sorted order *)
+Theorem C17_const_rules_same_with_xval : forall (igood : Z -> Z) (ngood ny : Z),
+  (mi_x_left_guard igood ngood ny, mi_x_left_lo igood ngood ny, mi_x_left_hi igood ngood ny, mi_x_left_src igood ngood ny,
+   mi_x_right_guard igood ngood ny, mi_x_right_lo igood ngood ny, mi_x_right_hi igood ngood ny, mi_x_right_src igood ngood ny)
+  = (mi_idx_left_guard igood ngood ny, mi_idx_left_lo igood ngood ny, mi_idx_left_hi igood ngood ny, mi_idx_left_src igood ngood ny,
+     mi_idx_right_guard igood ngood ny, mi_idx_right_lo igood ngood ny, mi_idx_right_hi igood ngood ny, mi_idx_right_src igood ngood ny).
+Proof. exact const_rules_same. Qed.
+Print Assumptions C17_const_rules_same_with_xval.
+
 (* maskinterp_axis: on an n-D array (flat list + the index lists of its lines along the chosen axis) the loop
    ynew[line] = djs_maskinterp1(yval[line], mask[line], xval[line]) acts independently on every line:
    each line of the output is the 1-D result for that line of the input -- for M and for S -- and the 1-D
@@ -277,13 +317,23 @@ Print Assumptions C17_median_unique.
 
 (* ================================================================ skymask *)
 
-(* smooth(badmask*width, width, edge_truncate=True) > 0 is dilation by ngrow, edges included *)
-Theorem C17_smooth_is_dilation : forall (bad : list bool) (g i : nat), (1 <= g)%nat -> (i < length bad)%nat ->
-  let w := (2 * Z.of_nat g + 1)%Z in
-  nth_error (map (fun v => (0 <? v)%Z) (smooth_trunc (map (fun b : bool => if b then w else 0%Z) bad) w)) i
-  = Some (dil_at bad g i).
-Proof. exact smooth_dilate. Qed.
-Print Assumptions C17_smooth_is_dilation.
+(* the generated guard (ngrow > 0), width (2*ngrow+1), smooth(badmask*width, width, True) call and `> 0` test
+   compute the dilation by ngrow of the flagged pixels, row ends included *)
+Theorem C17_skymask_badmask_is_dilation : forall (flagged : list bool) (g : nat),
+  (if sky_grow_guard (Z.of_nat g)
+   then let width := sky_width (Z.of_nat g) in
+        map sky_smooth_test
+            (smooth_model (map (fun b : bool => ((if b then 1 else 0) * sky_smooth_scale width)%Z) flagged)
+                          (sky_smooth_width width) sky_smooth_edge)
+   else flagged) = dilate_spec flagged g.
+Proof. exact sky_bad_eq. Qed.
+Print Assumptions C17_skymask_badmask_is_dilation.
+
+(* the flags tested are the two the property names *)
+Theorem C17_skymask_flag_names :
+  sky_flag_names = [("SPPIXMASK", "BADSKYCHI"); ("SPPIXMASK", "REDMONSTER")]%string.
+Proof. exact eq_refl. Qed.
+Print Assumptions C17_skymask_flag_names.
 
 (* skymask_spec: the inverse variance is zeroed exactly within ngrow pixels of a flagged pixel *)
 Theorem C17_skymask_spec : forall (f1 f2 : Z) (g : nat) (iv : list Q) (ms : list Z) (i : nat) (v : Q),
@@ -309,9 +359,9 @@ Print Assumptions C17_skymask_no_ormask.
 (* signed and unsigned widths: the test on the mask cast to uint64 is the test on the stored integer value
    (negative values included), a flag 2^b tests bit b of it, and for b inside the stored width w that is
    bit b of the stored w-bit pattern *)
-Theorem C17_flag_test_any_sign : forall f m : Z, (0 <= f < 2 ^ 64)%Z ->
-  flag_test_u64 f m = negb (Z.land m f =? 0)%Z.
-Proof. exact flag_test_u64_ok. Qed.
+Theorem C17_flag_test_any_sign : forall f1 f2 m : Z, (0 <= f1 < 2 ^ 64)%Z -> (0 <= f2 < 2 ^ 64)%Z ->
+  sky_flagged m f1 f2 = (negb (Z.land m f1 =? 0)%Z || negb (Z.land m f2 =? 0)%Z).
+Proof. exact sky_flagged_ok. Qed.
 Print Assumptions C17_flag_test_any_sign.
 
 Theorem C17_flag_is_bit : forall m b : Z, (0 <= b)%Z -> (Z.land m (2 ^ b) <> 0%Z <-> Z.testbit m b = true).
